@@ -209,3 +209,57 @@ fn verif_native_c12_new() {
     judge("stack".to_string(), false, &mut fails, &mut n);
     assert!(fails.is_empty(), "C12.N.new: {} of {} definitions wrong, first: {:?}", fails.len(), n, &fails[..fails.len().min(6)]);
 }
+
+
+//@n {"id":"C19.N.angles","props":["C19"],"tier":"quick","bound":"all angles k/240 degrees for k in -172800..=172800 (a 15-arcsecond lattice over [-720, 720], which hits every minute and every 15-second carry and all |angle| < 1 degree) plus 2000 irregular values","text":"ISO-6709 DDDMM.mmm and DDDMMSS.sss encodings and degree-minute-second triples convert to and from decimal degrees without loss beyond rounding (1e-10 degrees) for every angle incl. zero degrees and negative sign; normalize_symmetric returns an equivalent angle in [-pi, pi], normalize_positive in [0, 2pi]"}
+#[test]
+fn verif_native_c19_angles() {
+    use crate::math::angular::*;
+    use std::f64::consts::PI;
+    let mut fails = Vec::new();
+    let mut n = 0;
+    let mut values: Vec<f64> = (-172800..=172800).map(|k| k as f64 / 240.0).collect();
+    let mut x = 0.123456789f64;
+    for _ in 0..2000 {
+        x = (x * 9973.0 + 0.7390851332).fract();
+        values.push((x - 0.5) * 1440.0);
+    }
+    for dd in values {
+        n += 1;
+        let a = iso_dm_to_dd(dd_to_iso_dm(dd));
+        let b = iso_dms_to_dd(dd_to_iso_dms(dd));
+        if (a - dd).abs() > 1e-10 || (b - dd).abs() > 1e-10 {
+            if fails.len() < 5 {
+                fails.push(format!("{dd}: via DDDMM.mmm {a}, via DDDMMSS.sss {b}"));
+            } else {
+                fails.push(String::new());
+            }
+        }
+        // degree, minute, second triple
+        let (sign, ad) = (dd.signum(), dd.abs());
+        let d = ad.floor();
+        let m = ((ad - d) * 60.0).floor();
+        let s = ((ad - d) * 60.0 - m) * 60.0;
+        if d >= 1.0 || dd >= 0.0 {
+            let back = dms_to_dd((sign * d) as i32, m as u16, s);
+            if (back - dd).abs() > 1e-10 {
+                fails.push(format!("dms_to_dd({}, {m}, {s}) = {back}, expected {dd}", sign * d));
+            }
+        }
+        // normalisation
+        let r = dd.to_radians();
+        let (sy, po) = (normalize_symmetric(r), normalize_positive(r));
+        let equiv = |a: f64, b: f64| {
+            let k = ((a - b) / (2.0 * PI)).round();
+            (a - b - k * 2.0 * PI).abs() < 1e-9
+        };
+        if !(sy >= -PI - 1e-12 && sy <= PI + 1e-12 && equiv(sy, r)) || !(po >= 0.0 && po <= 2.0 * PI + 1e-12 && equiv(po, r)) {
+            if fails.len() < 5 {
+                fails.push(format!("normalize({dd} deg): symmetric {sy}, positive {po}"));
+            } else {
+                fails.push(String::new());
+            }
+        }
+    }
+    assert!(fails.is_empty(), "C19.N.angles: {} of {} angles wrong, first: {:?}", fails.len(), n, &fails[..fails.len().min(5)]);
+}
